@@ -18,7 +18,7 @@ Annotations: push / pop markers are properly nested and do not change the text."
 import itertools
 import multiprocessing as mp
 
-from engine.interp import (Const, Sym, ListV, TupleV, ObjV, TypeV, Prim, FuncV, NONE, Undecided, Raised, PathLimit, prov)
+from engine.interp import (Const, Sym, ListV, TupleV, ObjV, TypeV, Prim, FuncV, NONE, Undecided, Raised, PathLimit, LoopLimit, prov)
 from engine.loader import AnalysisError
 from . import docmodel as DM
 
@@ -239,6 +239,79 @@ def documents(tier, seed):
     return docs
 
 
+def _size(t):
+    n = 1
+    for x in t[1:]:
+        if isinstance(x, tuple):
+            n += _size(x)
+        elif isinstance(x, list):
+            n += sum(_size(y) for y in x)
+    return n
+
+
+ALWAYS_SCALE = 8
+
+
+def scaled_documents(repo):
+    """Scenarios scaled past every size constant the layout engine (layout / doc / doctypes / utils) compares against - plus one fixed
+    small scale so that this path is exercised on a tree without such constants.  A branch that is only taken for "more than N"
+    documents, columns or steps is run with more than N.  Returns ([(term, widths, fracs, spec)], mined, beyond); spec 'full' compares
+    with every denoted layout, 'light' (fills with many separators: 2^n layouts) checks termination and the text only."""
+    from engine import thresholds
+    mods = []
+    for nm in ('layout', 'doc', 'doctypes', 'utils'):
+        try:
+            mods.append(repo.module(nm))
+        except AnalysisError:
+            pass
+    mined, beyond = thresholds.mine(mods, most=600)
+    a, b, c = ('t', 'a'), ('t', 'bbbb'), ('t', 'cccc')
+    L, S, H = ('line',), ('soft',), ('hl',)
+    g = lambda x: ('grp', x)
+    cat = lambda *xs: ('cat', list(xs))
+
+    def sep(items, s_):
+        out = []
+        for i, x in enumerate(items):
+            if i:
+                out.append(s_)
+            out.append(x)
+        return out
+    out = []
+    for T in sorted(set(mined) | {ALWAYS_SCALE}):
+        n = T + 2
+        ab = ('t', 'ab')
+        # one group of n words: flat it is 3n-1 columns
+        W1 = 3 * n - 1
+        out.append((g(cat(*sep([ab] * n, L))), [W1, W1 - 1, W1 + 1, max(1, W1 // 2)], [1.0], 'full'))
+        out.append((g(cat(*sep([ab] * n, S))), [2 * n, 2 * n - 1], [1.0, 0.5], 'full'))
+        # the same inside brackets and a nest, the way the sequence printers build it
+        out.append((g(cat(('t', '['), ('nest', 4, cat(S, *sep([ab] * n, cat(('t', ','), L)))), S, ('t', ']'))), [4 * n, 4 * n - 1, 4 * n - 3], [1.0], 'full'))
+        # a group followed by n unbreakable texts on its line
+        out.append((cat(g(cat(a, L, a)), *([ab] * n)), [2 * n + 3, 2 * n + 2], [1.0], 'full'))
+        # a block aligned / hung after a prefix of T+1 columns
+        pre = ('t', 'x' * (T + 1))
+        out.append((cat(pre, ('align', g(cat(b, L, c, L, a)))), [T + 1 + 8, T + 1 + 11], [1.0], 'full'))
+        out.append((cat(pre, ('hang', 2, cat(b, L, c))), [T + 1 + 8], [1.0], 'full'))
+        out.append((('nest', 2, cat(a, L, pre, ('align', cat(b, L, c)))), [T + 12], [1.0], 'full'))
+        # a concatenation of T+1 parts where normalisation does not rebuild it: an item of a fill, the flat branch of a choice;
+        # the same document object is laid out at every width, by both strategies
+        out.append((('fill', [cat(*([a] * (T + 1))), L, b]), [T + 8, 4], [1.0], 'full'))
+        out.append((g(cat(a, ('fc', cat(H, b), cat(*([a] * (T + 1)))), L, b)), [T + 10, T + 3, 4], [1.0], 'full'))
+        out.append((cat(*([a] * (T + 1))), [T + 1, 3], [1.0], 'full'))
+        # a long fill (a comment of n words), also where the indentation has reached the page width
+        words = ('fill', sep([ab] * n, L))
+        out.append((words, [W1, 14, 5], [1.0], 'light'))
+        out.append((cat(a, ('nest', 9, cat(H, words))), [8, 9, 10, 30], [1.0], 'light'))
+        out.append((cat(a, ('nest', 6, cat(H, ('fill', sep([ab] * n, ('fc', cat(H, ('t', '# ')), ('t', ' '))))))), [6, 7, 20], [1.0], 'light'))
+        # pages and ribbons around the constant
+        if T <= 300:
+            for t in (g(cat(b, L, c, L, a)), g(cat(('t', 'abcd abcd'), L, ('t', 'abcd abcd'))), g(cat(('t', '['), ('nest', 4, cat(S, b, ('t', ','), L, c)), S, ('t', ']'))),
+                      cat(g(cat(b, L, c)), ('nest', 3, cat(H, g(cat(c, L, c, L, c)))))):
+                out.append((t, [T + 1, 2 * T + 1], [1.0, 0.2, 0.08], 'full'))
+    return out, mined, beyond
+
+
 WIDTHS = [1, 3, 4, 5, 8, 10, 12, 16, 20]
 FRACS = [1.0, 0.5, 0.95]
 
@@ -285,11 +358,64 @@ class World(DM.World):
         return ''.join(out), ok_nesting and depth == 0
 
 
+def _show(t):
+    r = DM.show(t)
+    if len(r) <= 160:
+        return r
+    return '%s ... %s (%d nodes)' % (r[:90], r[-50:], _size(t))
+
+
+def _texts(t):
+    k = t[0]
+    if k == 't':
+        return t[1]
+    if k in ('cat', 'fill'):
+        return ''.join(_texts(x) for x in t[1])
+    if k in ('grp', 'ann', 'align', 'ab'):
+        return _texts(t[1])
+    if k in ('nest', 'hang'):
+        return _texts(t[2])
+    return ''
+
+
+def _light(w, t, doc, widths, fracs, res):
+    """fills with many separators (the reference would enumerate 2^n layouts): the layout terminates, does not raise, and emits the
+    texts of the document in order (separators here are blanks, line breaks and comment leaders)"""
+    want = _texts(t).replace(' ', '')
+    for strategy in ('layout_smart', 'layout_fast'):
+        for width in widths:
+            for frac in fracs:
+                desc = '%s(%s, width=%d, ribbon_frac=%s)' % (strategy, _show(t), width, frac)
+                try:
+                    got, nested = w.layout(strategy, doc, width, frac)
+                except Raised as e:
+                    res['C04'][1].append('%s raises %s' % (desc, e.what))
+                    continue
+                except LoopLimit as e:
+                    res['C04'][1].append('%s does not terminate (%s; the document has %d nodes)' % (desc, e, _size(t)))
+                    res['loop'].append('%s does not terminate (%s; the document has %d nodes)' % (desc, e, _size(t)))
+                    continue
+                except (Undecided, PathLimit) as e:
+                    if len(res['und']) < 5:
+                        res['und'].append('%s: %s' % (desc, e))
+                    continue
+                have = got.replace('\x01', '').replace('\x02', '').replace('\n', '').replace(' ', '').replace('#', '')
+                if have == want.replace('#', ''):
+                    res['C04'][0] += 1
+                else:
+                    res['C04'][1].append('%s emits %d characters of text where the document has %d: text is lost, repeated or reordered (%r...)' % (
+                        desc, len(have), len(want), got[:80]))
+
+
 def _job(args):
     repo, docs, tier = args
     w = World(repo)
-    res = {'C04': [0, []], 'C05': [0, []], 'C05hl': [0, []], 'C06': [0, []], 'ann': [0, []], 'und': []}
+    res = {'C04': [0, []], 'C05': [0, []], 'C05hl': [0, []], 'C06': [0, []], 'ann': [0, []], 'und': [], 'loop': []}
     for t in docs:
+        widths, fracs, spec = WIDTHS, FRACS, 'full'
+        if t and t[0] == 'scaled':
+            _, t, widths, fracs, spec = t
+        w.it.max_while = 5000 + 60 * _size(t)
         try:
             doc = w.build(t)
         except (Raised, Undecided, PathLimit) as e:
@@ -297,6 +423,9 @@ def _job(args):
             continue
         kinds = _kinds(t)
         classic = kinds <= CLASSIC
+        if spec == 'light':
+            _light(w, t, doc, widths, fracs, res)
+            continue
         lay = layouts(t)
         texts = {}
         for text, flats in lay:
@@ -306,13 +435,17 @@ def _job(args):
             # the rendering at unbounded width: every group flat (what is outside any group stays broken)
             flat_text = lay[-1][0] if lay else None
         for strategy in ('layout_smart', 'layout_fast'):
-            for width in WIDTHS:
-                for frac in FRACS:
-                    desc = '%s(%s, width=%d, ribbon_frac=%s)' % (strategy, DM.show(t), width, frac)
+            for width in widths:
+                for frac in fracs:
+                    desc = '%s(%s, width=%d, ribbon_frac=%s)' % (strategy, _show(t), width, frac)
                     try:
                         got, nested = w.layout(strategy, doc, width, frac)
                     except Raised as e:
                         res['C04'][1].append('%s raises %s' % (desc, e.what))
+                        continue
+                    except LoopLimit as e:
+                        res['C04'][1].append('%s does not terminate (%s; the document has %d nodes)' % (desc, e, _size(t)))
+                        res['loop'].append('%s does not terminate (%s; the document has %d nodes)' % (desc, e, _size(t)))
                         continue
                     except (Undecided, PathLimit) as e:
                         if len(res['und']) < 5:
@@ -399,25 +532,28 @@ def immutability(repo, tier):
         return _IMM_CACHE[key][1]
     w = World(repo)
     docs = documents('quick', 0)
-    docs = docs[:len(docs) - 30]
+    docs = [(t, (1, 8, 20)) for t in docs[:len(docs) - 30]]
+    # and the scenarios scaled past the size constants of the engine (a long concatenation consumed in slices, ...)
+    docs += [(t, tuple(ws[:2])) for t, ws, fr, spec in scaled_documents(repo)[0] if _size(t) <= 700]
     consts = [w.NIL, w.HL, w.LINE, w.SOFT]
     n, bad, und = 0, [], []
-    for t in docs:
+    for t, widths_ in docs:
+        w.it.max_while = 5000 + 60 * _size(t)
         try:
             doc = w.build(t)
             before = (_snapshot(doc), [_snapshot(c) for c in consts])
             ndoc = w.call(w.dt, 'normalize_doc', [doc])
             if (_snapshot(doc), [_snapshot(c) for c in consts]) != before:
-                bad.append('normalize_doc(%s) modifies the document it is given (or a module-level constant inside it)' % DM.show(t))
+                bad.append('normalize_doc(%s) modifies the document it is given (or a module-level constant inside it)' % _show(t))
                 continue
             # a normalised document may be kept and laid out again
             keep = _snapshot(ndoc) if tier == 'never' else None
         except (Raised, Undecided, PathLimit) as e:
-            und.append('building %s: %s' % (DM.show(t), getattr(e, 'what', e)))
+            und.append('building %s: %s' % (_show(t), getattr(e, 'what', e)))
             continue
         for strategy in ('layout_smart', 'layout_fast'):
-            for width in (1, 8, 20):
-                desc = '%s(%s, width=%d)' % (strategy, DM.show(t), width)
+            for width in widths_:
+                desc = '%s(%s, width=%d)' % (strategy, _show(t), width)
                 try:
                     w.layout(strategy, doc, width, 1.0)
                     w.layout(strategy, doc, width, 0.5)
@@ -450,17 +586,17 @@ def _worker(i):
     return _job((repo, chunks[i], tier))
 
 
-def run(repo, rep, rules):
-    """rules: subset of {'C04': rule, 'C05': rule, 'C06': rule, 'ann': rule}; returns the instance count"""
+_RUN_CACHE = {}
+
+
+def _run_all(repo, docs, tier):
     global _ARGS
-    docs = documents(rep.tier, rep.seed)
-    World(repo)         # fail early
     jobs = 1 if mp.current_process().daemon else min(16, mp.cpu_count() or 1)
     results = None
     if jobs > 1:
         chunks = [docs[i::jobs] for i in range(jobs)]
         try:
-            _ARGS = (repo, chunks, rep.tier)
+            _ARGS = (repo, chunks, tier)
             with mp.get_context('fork').Pool(jobs) as pool:
                 results = pool.map(_worker, range(jobs))
         except (OSError, ValueError):
@@ -468,22 +604,45 @@ def run(repo, rep, rules):
         finally:
             _ARGS = None
     if results is None:
-        results = [_job((repo, docs, rep.tier))]
-    tot = {'C04': [0, []], 'C05': [0, []], 'C05hl': [0, []], 'C06': [0, []], 'ann': [0, []], 'und': []}
+        results = [_job((repo, docs, tier))]
+    tot = {'C04': [0, []], 'C05': [0, []], 'C05hl': [0, []], 'C06': [0, []], 'ann': [0, []], 'und': [], 'loop': []}
     for r in results:
         for k in ('C04', 'C05', 'C05hl', 'C06', 'ann'):
             tot[k][0] += r[k][0]
             tot[k][1] += r[k][1]
         tot['und'] += r['und']
+        tot['loop'] += r.get('loop', [])
+    return tot
+
+
+def run(repo, rep, rules):
+    """rules: subset of {'C04': rule, 'C05': rule, 'C06': rule, 'ann': rule}; returns the instance count"""
+    docs = documents(rep.tier, rep.seed)
+    scaled, mined, beyond = scaled_documents(repo)
+    # the big ones first: the chunks are dealt round-robin
+    scaled.sort(key=lambda x: -_size(x[0]) * len(x[1]) * len(x[2]))
+    docs = [('scaled',) + x for x in scaled] + docs
+    rep.note('layout model: size constants read by the layout engine: %s; %d scenarios scaled past them (and past %d)%s' % (
+        {k: v[:2] for k, v in mined.items()} or 'none', len(scaled), ALWAYS_SCALE, ('; beyond the model: %s' % beyond) if beyond else ''))
+    World(repo)         # fail early
+    ck = (id(repo), rep.tier, rep.seed)
+    if ck in _RUN_CACHE and _RUN_CACHE[ck][0] is repo:
+        tot = _RUN_CACHE[ck][1]
+    else:
+        tot = _run_all(repo, docs, rep.tier)
+        _RUN_CACHE.clear()
+        _RUN_CACHE[ck] = (repo, tot)
     where = repo.module('layout').relpath
     names = {'C04': 'layout-is-a-denoted-layout', 'C05': 'flat-group-line-fits', 'C06': 'one-line-when-it-fits', 'ann': 'annotation-markers-nested'}
     floors = {'C04': 500, 'C05': 300, 'C06': 100, 'ann': 500}
     n = 0
     for k, rule in rules.items():
+        if k == 'loop':
+            continue
         okc, bad = tot[k]
         n += 1
         if bad:
-            for i, d in enumerate(sorted(bad)[:4]):
+            for i, d in enumerate(sorted(bad, key=len)[:4]):
                 rep.fail(rule, names[k] if i == 0 else '%s#%d' % (names[k], i + 1), where, d)
         else:
             rep.check(okc >= floors[k] or bool(tot['und']), rule, names[k], where, 'held on %d interpreted layouts' % okc, 'only %d layouts could be compared' % okc, nontrivial=True)
@@ -493,6 +652,16 @@ def run(repo, rep, rules):
     for u in tot['und'][:4]:
         n += 1
         rep.undecided(list(rules.values())[0], 'layout-model-interpretable', where, u)
+    for T, wh in beyond.items():
+        n += 1
+        rep.undecided(list(rules.values())[0], 'layout-model-scale', where, 'the layout engine decides on the size constant %d (%s): no scenario of the '
+                      'model is that large' % (T, wh[0]))
+    if 'loop' in rules:
+        n += 1
+        if tot['loop']:
+            rep.fail(rules['loop'], 'layout-terminates', where, sorted(tot['loop'], key=len)[0])
+        else:
+            rep.check(True, rules['loop'], 'layout-terminates', where, 'every interpreted layout terminated', '', nontrivial=True)
     rep.count(sum(tot[k][0] for k in ('C04', 'C05', 'C06', 'ann')))
     rep.analysed['layout_documents'] = len(docs)
     return n
